@@ -253,6 +253,8 @@ def check_fw(prop, tier, seed, plan, verdict_names):
         trace = os.path.join(wd, "rand.ndjson")
         a = ["--seed", seed, "--scenarios", rp["scenarios"], "--calls", rp["calls"], "--out", trace]
         a += rp.get("flags", [])
+        bfile = os.path.join(wd, "boundary.ndjson")
+        a += ["--boundary", rp.get("boundary", rp["scenarios"]), "--boundary-out", bfile]
         pr = vlib.run_bin("fw_random", a)
         if pr.returncode != 0:
             raise ToolError("fw_random failed: %s" % pr.stdout[-2000:])
@@ -280,6 +282,20 @@ def check_fw(prop, tier, seed, plan, verdict_names):
                 res.violations.append(dict(source="rand seed=%d" % seed, id=sid, names=sorted(names),
                                            detail=[d for d in tv["diverged"] if d["id"] == sid][:1],
                                            actual=scenario_lines(trace, sid)))
+        # boundary tour (amounts outside the specification's integer encoding): totality and
+        # determinism only, judged without TLC
+        b = s.get("boundary", {})
+        if b.get("run"):
+            log("[%s] RAND boundary tour: %d scenarios with amounts around 2^31..2^64, %d calls; panics=%d nondet=%d" % (
+                prop, b["run"], b["calls"], b["panics"], b["nondeterministic"]))
+            res.evaluations += b["run"]
+            res.notes.append("boundary tour: %d scenarios, %d calls with counter amounts, limits and budgets around 2^31, 2^32, 2^53, 2^62, 2^63, 2^64 (outside the specification's integer encoding): only 'every call returns' and 'same inputs, same outputs' are judged there" % (b["run"], b["calls"]))
+            for line in open(bfile):
+                rec = json.loads(line)
+                name = "C01" if rec["problem"]["what"] == "panic" else "C05"
+                if name in verdict_names:
+                    res.violations.append(dict(source="rand boundary seed=%d" % seed, id=rec["scenario"],
+                                               names=[name], detail=rec["problem"], actual=rec))
     # 4. composition: the frameworks embedded in the simulator (std::time::Instant, the simulator's
     #    own event stream, single-event calls) against the same mechanism and observer
     cp = p.get("compose")
